@@ -717,7 +717,7 @@ pub fn run(case: &Case, ctx: &mut Ctx) -> CaseOutcome {
     if ctx.stats.samples.len() < 3 && case.index % 89 == 0 {
         ctx.stats.samples.push(serde_json::json!({
             "index": case.index,
-            "sources": a.sources.iter().map(|s| serde_json::json!({"path": s.path, "text": s.text})).collect::<Vec<_>>(),
+            "sources": a.sources.iter().map(|s| serde_json::json!({"path": s.path, "text": s.text.as_ref().map(|t| t.chars().take(1500).collect::<String>())})).collect::<Vec<_>>(),
             "inputs": cfg.inputs, "mode": cfg.mode.name(), "k": cfg.k, "trailing_newline": cfg.trailing_newline,
             "spec_verdict": if spec_ok { "ok" } else { "error" },
             "verdict": sim.verdict.short(),
